@@ -191,6 +191,18 @@ func c16Run(ctx *Ctx, c c16Case) {
 	if out.Err != nil {
 		ctx.Count("accepted_but_eval_error(non-arity)")
 	}
+	// … and whatever the receiver is: the same accepted call on receivers of every kind
+	if i := strings.Index(src, "."+c.Name+"("); i > 0 {
+		for _, recv := range []string{"{}", "true", "false", "0", "1", "1.5", "'x'", "'5 mg'", "'true'", "'2020-01-01'", "@2020", "@2020-01-01", "@2020-01-01T10:00:00Z", "@T10:00", "(5 'mg')", "(1 year)", "Patient", "Patient.active", "Patient.birthDate", "Patient.gender", "Patient.name[0]", "Patient.photo", "%none"} { // single items and empties only: the library reports a multi-item input with the same sentinel ("input has length 4, expected 1"), which is not a complaint about the argument count
+			alt := recv + src[i:]
+			o := evalWith(alt, input, vars, copts...)
+			ctx.Count("accepted_call_on_other_receiver")
+			if o.CompileErr == nil && o.Panic == "" && o.Err != nil && errors.Is(o.Err, impl.ErrWrongArity) {
+				ctx.Fail(fmt.Sprintf("arity error at evaluation after Compile accepted %s/%d (other receiver)", c.Name, c.N), fmt.Sprintf("%s → %v", alt, o.Err))
+				return
+			}
+		}
+	}
 }
 
 func TestC16(t *testing.T) {
